@@ -31,8 +31,10 @@ type C08Scenario struct {
 	BsIgnore   string `json:"bs_ignore,omitempty"`   // -x for bs
 	ApiPrefix  string `json:"api_prefix,omitempty"`  // -a for api
 	// TZs[i]: time zone of the processes of schedule i+1 (the canonical run uses the default zone)
-	TZs    []string `json:"tzs,omitempty"`
-	Remove string   `json:"remove,omitempty"` // -r for api / call / rcall: package names to strip, possibly one a prefix of another
+	TZs []string `json:"tzs,omitempty"`
+	// LowFD[i]: the processes of schedule i+1 run under a descriptor limit of 32
+	LowFD  []bool `json:"low_fd,omitempty"`
+	Remove string `json:"remove,omitempty"` // -r for api / call / rcall: package names to strip, possibly one a prefix of another
 }
 
 type C08 struct{}
@@ -91,6 +93,20 @@ func (C08) Generate(t *tape.Tape, tier string) interface{} {
 	if len(methods) > 0 {
 		sc.Root = methods[t.Pick(len(methods))]
 		sc.Target = methods[t.Pick(len(methods))]
+		if t.Bool(1, 5) {
+			// a short form (Class.method or the bare method name) that several declared methods end in:
+			// it is nobody's full name, so every run must treat it alike
+			short := func(full string) string {
+				parts := strings.Split(full, ".")
+				n := 1 + t.Pick(2)
+				if n >= len(parts) {
+					n = 1
+				}
+				return strings.Join(parts[len(parts)-n:], ".")
+			}
+			sc.Root = short(sc.Root)
+			sc.Target = short(sc.Target)
+		}
 	}
 	// option variety
 	var simpleNames []string
@@ -166,6 +182,7 @@ func (C08) Generate(t *tape.Tape, tier string) interface{} {
 		}
 		sc.Schedules = append(sc.Schedules, s)
 		sc.TZs = append(sc.TZs, []string{"", "", "Asia/Tokyo", "America/Los_Angeles", "Pacific/Kiritimati"}[t.Pick(5)])
+		sc.LowFD = append(sc.LowFD, t.Bool(1, 4))
 	}
 	return sc
 }
@@ -698,6 +715,11 @@ func (C08) Run(ctx *sim.RunCtx, data json.RawMessage) (*sim.Outcome, error) {
 			site := ctx.Env.Sites[int(s.Seed%uint64(len(ctx.Env.Sites)))]
 			s.Site = strings.TrimPrefix(site, "dep:")
 		}
+		maxFD := 0
+		if si > 0 && si-1 < len(sc.LowFD) && sc.LowFD[si-1] {
+			maxFD = 32
+			out.Faults["descriptor-limit-32"]++
+		}
 		tz := ""
 		if si > 0 && si-1 < len(sc.TZs) {
 			tz = sc.TZs[si-1]
@@ -730,7 +752,7 @@ func (C08) Run(ctx *sim.RunCtx, data json.RawMessage) (*sim.Outcome, error) {
 		for _, c := range cmds {
 			saved := ctx.ProcTimeout
 			ctx.ProcTimeout = 60 * time.Second
-			res, err := ctx.Run(&sim.Proc{Schedule: s, Cwd: w, TZ: tz, Ops: []sim.Op{{Op: "cli", Args: map[string]interface{}{"args": c.args}}}})
+			res, err := ctx.Run(&sim.Proc{Schedule: s, Cwd: w, TZ: tz, MaxOpenFiles: maxFD, Ops: []sim.Op{{Op: "cli", Args: map[string]interface{}{"args": c.args}}}})
 			ctx.ProcTimeout = saved
 			if err != nil {
 				return nil, err
@@ -811,7 +833,7 @@ func (C08) Run(ctx *sim.RunCtx, data json.RawMessage) (*sim.Outcome, error) {
 		if repoDir != "" {
 			os.RemoveAll(filepath.Join(repoDir, "coca_reporter"))
 			for _, gc := range [][2]string{{"git-basic", "-b"}, {"git-team", "-t"}, {"git-top", "-o"}, {"git-summary", "-m"}} {
-				resg, err := ctx.Run(&sim.Proc{Schedule: s, Cwd: repoDir, TZ: tz, Ops: []sim.Op{{Op: "cli", Args: map[string]interface{}{"args": []string{"git", gc[1]}, "read": []string{"coca_reporter/commits.json"}}}}})
+				resg, err := ctx.Run(&sim.Proc{Schedule: s, Cwd: repoDir, TZ: tz, MaxOpenFiles: maxFD, Ops: []sim.Op{{Op: "cli", Args: map[string]interface{}{"args": []string{"git", gc[1]}, "read": []string{"coca_reporter/commits.json"}}}}})
 				if err != nil {
 					return nil, err
 				}
@@ -840,7 +862,7 @@ func (C08) Run(ctx *sim.RunCtx, data json.RawMessage) (*sim.Outcome, error) {
 		}
 		// library-style analysis: identifier pass, then the full pass with the project-wide identifier set
 		{
-			res, err := ctx.Run(&sim.Proc{Schedule: s, Cwd: w, TZ: tz, Ops: []sim.Op{{Op: "identDir", Args: map[string]interface{}{"dir": "src"}}}})
+			res, err := ctx.Run(&sim.Proc{Schedule: s, Cwd: w, TZ: tz, MaxOpenFiles: maxFD, Ops: []sim.Op{{Op: "identDir", Args: map[string]interface{}{"dir": "src"}}}})
 			if err != nil {
 				return nil, err
 			}
@@ -848,7 +870,7 @@ func (C08) Run(ctx *sim.RunCtx, data json.RawMessage) (*sim.Outcome, error) {
 			if res.Completed(0) && res.Records[0].OK {
 				identFile := filepath.Join(w, "lib-ident.json")
 				os.WriteFile(identFile, res.Records[0].Result, 0644)
-				res2, err := ctx.Run(&sim.Proc{Schedule: s, Cwd: w, TZ: tz, Ops: []sim.Op{{Op: "fullDir", Args: map[string]interface{}{"dir": "src", "ident": identFile}}}})
+				res2, err := ctx.Run(&sim.Proc{Schedule: s, Cwd: w, TZ: tz, MaxOpenFiles: maxFD, Ops: []sim.Op{{Op: "fullDir", Args: map[string]interface{}{"dir": "src", "ident": identFile}}}})
 				if err != nil {
 					return nil, err
 				}
@@ -870,7 +892,7 @@ func (C08) Run(ctx *sim.RunCtx, data json.RawMessage) (*sim.Outcome, error) {
 		if sc.GoFile != "" {
 			goPath := filepath.Join(w, "demo.go")
 			os.WriteFile(goPath, []byte(sc.GoFile), 0644)
-			resg, err := ctx.Run(&sim.Proc{Schedule: s, Cwd: w, TZ: tz, Ops: []sim.Op{{Op: "goIdent", Args: map[string]interface{}{"file": "demo.go"}}}})
+			resg, err := ctx.Run(&sim.Proc{Schedule: s, Cwd: w, TZ: tz, MaxOpenFiles: maxFD, Ops: []sim.Op{{Op: "goIdent", Args: map[string]interface{}{"file": "demo.go"}}}})
 			if err != nil {
 				return nil, err
 			}
@@ -889,7 +911,7 @@ func (C08) Run(ctx *sim.RunCtx, data json.RawMessage) (*sim.Outcome, error) {
 		// one process; "the same input gives the same output on every run" also holds for the third parse
 		gitLog2 := filepath.Join(w, "gitlog2.txt")
 		os.WriteFile(gitLog2, []byte(sc.GitLog2), 0644)
-		res, err := ctx.Run(&sim.Proc{Schedule: s, Cwd: w, TZ: tz, Ops: []sim.Op{{Op: "git", Args: map[string]interface{}{"logs": []string{gitLog, gitLog2, gitLog}}}}})
+		res, err := ctx.Run(&sim.Proc{Schedule: s, Cwd: w, TZ: tz, MaxOpenFiles: maxFD, Ops: []sim.Op{{Op: "git", Args: map[string]interface{}{"logs": []string{gitLog, gitLog2, gitLog}}}}})
 		if err != nil {
 			return nil, err
 		}
